@@ -112,7 +112,7 @@ class QGen:
             c = r.choice(["one", "lit", "lit", "num", "num", "flt", "mk", "mk", "firstcat", "one"])
         else:
             pool = ["add", "add", "mulf", "flagged", "pair", "none_default", "unann", "cat", "cat", "ident", "withctx",
-                    "sub", "getvar", "tag", "let", "let", "flag", "state_variable", "ns", "attr_up", "attr_low",
+                    "sub", "subin", "getvar", "tag", "let", "let", "flag", "state_variable", "ns", "attr_up", "attr_low",
                     "lit", "num", "firstcat", "optint", "optfb"]
             if self.allow_volatile:
                 pool += ["vol", "nocache"]
@@ -185,6 +185,11 @@ class QGen:
             a = [encode_token(q)]
             self.feat("param.context")
             self.feat("sub_evaluation")
+            self._numeric_prefix = False
+        elif c == "subin":
+            a = [encode_token(r.choice(["add-1", "cat-z", "ident", "add-2/cat-w", "mulf-2/ident"]))]
+            self.feat("param.context")
+            self.feat("sub_evaluation.injected_input")
             self._numeric_prefix = False
         elif c == "getvar" or c == "state_variable":
             a = [r.choice(NAMES + ["active_namespaces", "nope"])]
